@@ -214,3 +214,23 @@ def fake_channel(handler):
         def close(self):
             pass
     return Chan()
+
+
+_ISO_CACHE = {}
+
+
+def run_isolated(module, func, timeout=600):
+    """Run `module.func()` (returning JSON-able data) in a fresh interpreter: a generated package can be imported only once
+    per process (protobuf's descriptor pool), and replays must not depend on what the checker already imported."""
+    import json, subprocess
+    key = (module, func)
+    if key in _ISO_CACHE:
+        return _ISO_CACHE[key]
+    code = (f"import json, sys\nfrom {module} import {func} as f\nr = f()\nprint('\\n@@RESULT@@' + json.dumps(r, default=str))")
+    p = subprocess.run([sys.executable, "-c", code], capture_output=True, text=True, timeout=timeout, env=dict(os.environ))
+    out = p.stdout
+    if "@@RESULT@@" not in out:
+        raise RuntimeError(f"isolated run of {module}.{func} failed: rc={p.returncode}\n{p.stderr[-1500:]}")
+    res = json.loads(out.rsplit("@@RESULT@@", 1)[1])
+    _ISO_CACHE[key] = res
+    return res
